@@ -9,6 +9,7 @@ tv == <<vars, l>>
 ToMsg(j) == [from |-> j.from, kind |-> j.kind, src |-> j.src, dst |-> j.dst, tid |-> j.tid, uc |-> j.uc, rolea |-> j.rolea,
              user |-> <<j.user[1], j.user[2]>>, key |-> <<j.key[1], j.key[2]>>, prio |-> j.prio, tbc |-> j.tbc, copy |-> j.copy, nom |-> j.nom]
 ProjPairs(ps) == [k \in 1..Len(ps) |-> [id |-> ps[k].id, l |-> ps[k].l, r |-> ps[k].r, st |-> ps[k].st, nom |-> ps[k].nom, nos |-> ps[k].nos, reqs |-> ps[k].reqs]]
+ToData(j) == [from |-> j.from, src |-> j.src, dst |-> j.dst, pid |-> j.pid]
 ProjTxn(x) == [tid |-> x.tid, dst |-> x.dst, uc |-> x.uc, nom |-> x.nom]
 PostOK(j) ==
   /\ \A a \in Agents :
@@ -22,6 +23,8 @@ PostOK(j) ==
        /\ \A k \in 1..Len(j.post[a].remotes) : lastRx'[a][j.post[a].remotes[k].addr] = j.post[a].rx[j.post[a].remotes[k].addr]
   /\ net' = SeqToBag([k \in 1..Len(j.post.net) |-> ToMsg(j.post.net[k])])
   /\ now' = j.post.now
+  /\ dnet' = SeqToBag([k \in 1..Len(j.post.dnet) |-> ToData(j.post.dnet[k])])
+  /\ \A a \in Agents : rd'[a] = [k \in 1..Len(j.post[a].rd) |-> j.post[a].rd[k].pid]
 TInit == Init /\ l = 1
 Ev(e) == l <= Len(Tr) /\ Tr[l].ev = e /\ l' = l + 1
 J == Tr[l]
@@ -37,20 +40,27 @@ ResetStep ==
   /\ now' = 0 /\ lastRx' = [a \in Agents |-> Never] /\ selStart' = [a \in Agents |-> 0] /\ chkStart' = [a \in Agents |-> 0]
   /\ lastTick' = [a \in Agents |-> "Unknown"] /\ gath' = [a \in Agents |-> "complete"]
   /\ lastNom' = [a \in Agents |-> 0] /\ nomGen' = [a \in Agents |-> 0] /\ issued' = <<>>
-TNext == \/ Ev("Tick") /\ Tick(J.ag) /\ PostOK(J)
-         \/ Ev("Deliver") /\ Deliver(ToMsg(J.m)) /\ PostOK(J)
-         \/ Ev("Vanish") /\ Vanish(ToMsg(J.m)) /\ PostOK(J)
-         \/ Ev("Drop") /\ Drop(ToMsg(J.m)) /\ PostOK(J)
-         \/ Ev("Dup") /\ Dup(ToMsg(J.m)) /\ PostOK(J)
-         \/ Ev("Inject") /\ Inject(ToMsg(J.m)) /\ PostOK(J)
-         \/ Ev("Advance") /\ Advance(J.d) /\ PostOK(J)
-         \/ Ev("Renominate") /\ Renominate(J.ag, J.k) /\ PostOK(J)
-         \/ Ev("Restart") /\ Restart(J.ag) /\ PostOK(J)
-         \/ Ev("Gather") /\ Gather(J.ag) /\ PostOK(J)
-         \/ Ev("SetRemoteCreds") /\ SetRemoteCreds(J.ag) /\ PostOK(J)
-         \/ Ev("AddRemote") /\ AddRemote(J.ag, [addr |-> J.c.addr, typ |-> J.c.typ, prio |-> J.c.prio]) /\ PostOK(J)
-         \/ Ev("Skipped") /\ UNCHANGED vars /\ PostOK(J)
-         \/ Ev("DrainEnd") /\ UNCHANGED vars /\ PostOK(J)
+  /\ dnet' = EmptyBag /\ rd' = NoReads /\ wr' = 0
+TNext == \/ Ev("Tick") /\ Tick(J.ag) /\ DataIdle /\ PostOK(J)
+         \/ Ev("Deliver") /\ Deliver(ToMsg(J.m)) /\ DataIdle /\ PostOK(J)
+         \/ Ev("Vanish") /\ Vanish(ToMsg(J.m)) /\ DataIdle /\ PostOK(J)
+         \/ Ev("Drop") /\ Drop(ToMsg(J.m)) /\ DataIdle /\ PostOK(J)
+         \/ Ev("Dup") /\ Dup(ToMsg(J.m)) /\ DataIdle /\ PostOK(J)
+         \/ Ev("Inject") /\ Inject(ToMsg(J.m)) /\ DataIdle /\ PostOK(J)
+         \/ Ev("Advance") /\ Advance(J.d) /\ DataIdle /\ PostOK(J)
+         \/ Ev("Renominate") /\ Renominate(J.ag, J.k) /\ DataIdle /\ PostOK(J)
+         \/ Ev("Restart") /\ Restart(J.ag) /\ DataIdle /\ PostOK(J)
+         \/ Ev("Gather") /\ Gather(J.ag) /\ DataIdle /\ PostOK(J)
+         \/ Ev("SetRemoteCreds") /\ SetRemoteCreds(J.ag) /\ DataIdle /\ PostOK(J)
+         \/ Ev("AddRemote") /\ AddRemote(J.ag, [addr |-> J.c.addr, typ |-> J.c.typ, prio |-> J.c.prio]) /\ DataIdle /\ PostOK(J)
+         \/ Ev("Write") /\ (IF J.stun THEN WriteStun(J.ag) ELSE Write(J.ag, J.pid)) /\ PostOK(J)
+         \/ Ev("DeliverData") /\ DeliverData(ToData(J.d)) /\ PostOK(J)
+         \/ Ev("VanishData") /\ VanishData(ToData(J.d)) /\ PostOK(J)
+         \/ Ev("DropData") /\ DropData(ToData(J.d)) /\ PostOK(J)
+         \/ Ev("InjectData") /\ InjectData(ToData(J.d)) /\ PostOK(J)
+         \/ Ev("Skipped") /\ UNCHANGED <<corev, dnet, wr>> /\ rd' = NoReads /\ PostOK(J)
+         \/ Ev("RenominateBad") /\ UNCHANGED <<corev, dnet, wr>> /\ rd' = NoReads /\ PostOK(J)   \* refused API call: no effect
+         \/ Ev("DrainEnd") /\ UNCHANGED <<corev, dnet, wr>> /\ rd' = NoReads /\ PostOK(J)
          \/ Ev("Reset") /\ ResetStep /\ PostOK(J)
 TSpec == TInit /\ [][TNext]_tv
 Accepted == IF TLCGet("stats").diameter = Len(Tr) + 1 THEN TRUE
